@@ -108,44 +108,58 @@ def check_leb(ctx, w, mod, q, signed):
     ctx.ob('L-LEB', f.construct, 'payload mask 0x7f shifted by the counter', tr.get('value') == [('=', '0'), ('|=', expr.spec_nf('(b & 0x7F) << shift'))],
            got=tr.get('value'), expected=[('=', '0'), ('|=', expr.spec_nf('(b & 0x7F) << shift'))], msg='payload is not the low 7 bits placed at the current shift')
     ctx.ob('L-LEB', f.construct, 'shift grows by 7', tr.get('shift') == [('=', '0'), ('+=', '7')], got=tr.get('shift'))
-    # short read
-    shorts = [n for n in body if isinstance(n, ast.If) and expr.cond_str(n.test, env) == expr.spec_cond('len(data) != 1')]
-    ok = len(shorts) == 1 and len(shorts[0].body) == 1 and isinstance(shorts[0].body[0], ast.Raise) and 'FieldError' in U(shorts[0].body[0])
-    ctx.ob('L-LEB', f.construct, 'short read raises FieldError', ok, msg='truncated LEB128 is not reported with FieldError')
-    # continuation test: accepted spellings of "bit 7 of b is clear"
-    accepted = set([expr.spec_cond('b & 0x80 == 0'), expr.spec_cond('not b & 0x80'), expr.spec_cond('b < 0x80'), expr.spec_cond('(b & 0x80) == 0')])
-    term = [n for n in body if isinstance(n, ast.If) and any(isinstance(x, ast.Return) for x in n.body)]
-    ok = len(term) == 1 and expr.cond_str(term[0].test, env) in accepted
-    ctx.ob('L-LEB', f.construct, 'terminates on the byte whose bit 7 is clear', ok, got=[expr.cond_str(t.test, env) for t in term], expected=sorted(accepted),
+    # one iteration, over paths: read; a short read raises FieldError before anything else; otherwise byte, accumulate, shift,
+    # and only then the continuation test on that byte -- clear bit 7 returns at once, set bit 7 goes round again
+    short = expr.CP(expr.spec_cond('len(data) != 1'), True)
+    accepted = [expr.CP(expr.spec_cond(t), True) for t in ('b & 0x80 == 0', 'b < 0x80')] + [expr.CP('T(and_(128,b))', False)]
+    seen = set()
+    ok_short = ok_order = ok_term = True
+    rets = []
+    why = None
+    for p in paths.enum_paths(body):
+        ev = expr.path_events(p, env)
+        stm = [x[1] for x in ev if x[0] == 's']
+        cs = [x[1] for x in ev if x[0] == 'c']
+        if not ev or ev[0] != ('s', 'data = stream.read(1)') or not cs or cs[0][0] != short[0] or ev[1] != ('c', cs[0]):
+            ok_order, why = False, ev
+            continue
+        if cs[0] == short:
+            seen.add('short')
+            if not (p.end[0] == 'raise' and p.end[1] is not None and 'FieldError' in U(p.end[1]) and len(stm) <= 2):
+                ok_short, why = False, ev
+            continue
+        mid = [x for x in stm[1:] if not x.startswith('return')]
+        if [m.split(' ')[0] + ' ' + m.split(' ')[1] for m in mid] != ['b =', 'value |=', 'shift +=']:
+            ok_order, why = False, ev
+        if len(cs) != 2 or not any(cs[1][0] == a[0] for a in accepted):
+            ok_term, why = False, ev
+            continue
+        clear = any(cs[1] == a for a in accepted)
+        # the test comes after the shift advanced
+        if ev.index(('c', cs[1])) < max(i for i, x in enumerate(ev) if x[0] == 's' and x[1].startswith('shift +=')):
+            ok_order, why = False, ev
+        if clear:
+            seen.add('last')
+            if p.end[0] != 'return':
+                ok_term, why = False, ev
+            else:
+                rets.append(expr.nfs(p.end[1], env))
+        else:
+            seen.add('more')
+            if p.end[0] != 'fall':
+                ok_term, why = False, ev
+    ctx.ob('L-LEB', f.construct, 'short read raises FieldError', ok_short and 'short' in seen, got=why, msg='truncated LEB128 is not reported with FieldError')
+    ctx.ob('L-LEB', f.construct, 'terminates on the byte whose bit 7 is clear', ok_term and {'last', 'more'} <= seen, got=why or sorted(seen),
            msg='continuation test must be bit 7 of the byte just consumed')
-    # statement order in the loop: read, short check, b, accumulate, shift, terminate
-    kinds = []
-    for st in body:
-        s = U(st).split('\n')[0]
-        if s.startswith('data ='):
-            kinds.append('read')
-        elif s.startswith('if len(data)'):
-            kinds.append('short')
-        elif s.startswith('b ='):
-            kinds.append('byte')
-        elif s.startswith('value |='):
-            kinds.append('acc')
-        elif s.startswith('shift +='):
-            kinds.append('shift')
-        elif isinstance(st, ast.If):
-            kinds.append('term')
-        else:
-            kinds.append('other:' + s[:20])
-    ctx.ob('L-LEB', f.construct, 'loop order read, short-check, byte, accumulate, shift, terminate', kinds == ['read', 'short', 'byte', 'acc', 'shift', 'term'],
-           got=kinds, msg='the terminating test must come after the byte was accumulated and the shift advanced')
-    if term:
-        rets = [expr.nfs(r.value, env) for r in term[0].body if isinstance(r, ast.Return)]
-        if signed:
-            want = expr.spec_nf('value | (~0 << shift) if b & 0x40 else value')
-            ctx.ob('L-LEB', f.construct, 'sign extension: bit 6 of the last byte, ~0 << shift', rets == [want], got=rets, expected=want,
-                   msg='SLEB128 sign test/extension differs from DWARF §7.6', sample='SLEB128 returns ' + want)
-        else:
-            ctx.ob('L-LEB', f.construct, 'returns the accumulated value immediately', rets == ['value'], got=rets)
+    ctx.ob('L-LEB', f.construct, 'loop order read, short-check, byte, accumulate, shift, terminate', ok_order, got=why,
+           msg='the terminating test must come after the byte was accumulated and the shift advanced')
+    rets = sorted(set(rets))
+    if signed:
+        want = expr.spec_nf('value | (~0 << shift) if b & 0x40 else value')
+        ctx.ob('L-LEB', f.construct, 'sign extension: bit 6 of the last byte, ~0 << shift', rets == [want], got=rets, expected=want,
+               msg='SLEB128 sign test/extension differs from DWARF §7.6', sample='SLEB128 returns ' + want)
+    else:
+        ctx.ob('L-LEB', f.construct, 'returns the accumulated value immediately', rets == ['value'], got=rets)
     ctx.ob('L-LEB', f.construct, 'no minimality test / no other exit', len([n for n in ast.walk(f.node) if isinstance(n, (ast.Return, ast.Raise, ast.Break))]) == 2)
 
 
@@ -153,9 +167,25 @@ def check_repeat(ctx, w):
     f = w.model.func(CU, 'RepeatUntilExcluding._parse')
     env = expr.FEnv(f.node, params=('stream', 'context'), inline=False)
     whiles = [n for n in ast.walk(f.node) if isinstance(n, ast.While)]
-    order = [U(s).split('\n')[0] for s in whiles[0].body] if whiles else []
-    want = ['subobj = self.subcon._parse(stream, context_for_subcon)', 'if self.predicate(subobj, context):', 'obj.append(subobj)']
-    ctx.ob('L-REP', f.construct, 'parse, test predicate, then append (terminator excluded)', order == want, got=order, expected=want,
+    # one iteration: the element is parsed first; predicate true -> loop left without appending; false -> appended, next round
+    seen = set()
+    ok = bool(whiles)
+    why = None
+    pred = 'T(predicate(self,subobj,context))'
+    for p in (paths.enum_paths(whiles[0].body) if whiles else []):
+        ev = expr.path_events(p, env)
+        stm = [x[1] for x in ev if x[0] == 's']
+        cs = [x[1] for x in ev if x[0] == 'c']
+        good = bool(ev) and ev[0] == ('s', 'subobj = self.subcon._parse(stream, context_for_subcon)') and len(cs) == 1 and cs[0][0] == pred
+        if good and cs[0][1]:
+            seen.add('stop')
+            good = stm[1:] == [] and p.end[0] == 'break'
+        elif good:
+            seen.add('keep')
+            good = stm[1:] == ['obj.append(subobj)'] and p.end[0] == 'fall'
+        if not good:
+            ok, why = False, ev
+    ctx.ob('L-REP', f.construct, 'parse, test predicate, then append (terminator excluded)', ok and seen == {'stop', 'keep'}, got=why or sorted(seen),
            msg='the terminating element must be consumed but not included')
     ok = any(isinstance(h, ast.ExceptHandler) and 'ConstructError' in U(h.type) and 'ArrayError' in U(h) for h in ast.walk(f.node))
     ctx.ob('L-REP', f.construct, 'errors wrapped as ArrayError', ok)
